@@ -294,10 +294,13 @@ package scale
 
 // Nice is verified in model xreal (NaN / +-Inf); spacingAtLevel is executed
 // in place there (its own contract is proved in model real).
-//@ assume func TickOptions.FindLevel@xreal
+//@ func TickOptions.FindLevel@xreal
 //@   model xreal
-//@   trusted no guarantee used: any level may be returned
+//@   results l, ok
+//@   requires o != nil
 //@   ensures true
+//@   loop 1 (l) invariant true
+//@   loop 2 (l) invariant true
 //@   assigns nothing
 
 //@ func Linear.Nice
